@@ -41,6 +41,7 @@ type Engine struct {
 	known      []*KnownFinding
 	fieldInvs  map[string]*FieldInv // canon struct type + "#" + field index
 	fieldSitesOutside map[string][]string
+	immutables []*FieldInv
 	tables     map[*ssa.Global]*tableInfo
 	tableText  string
 	astPkgs    map[string]*packages.Package
@@ -163,7 +164,18 @@ func loadEngine(repo string) (*Engine, error) {
 				if e.fieldInvs == nil {
 					e.fieldInvs = map[string]*FieldInv{}
 				}
-				e.fieldInvs[fmt.Sprintf("%s#%d", canonType(tn.Type()), idx)] = fi
+				k := fmt.Sprintf("%s#%d", canonType(tn.Type()), idx)
+				if fi.Immutable {
+					k += "#immutable"
+					fi.Index = idx
+					fi.TypeID = e.tagOf(tn.Type())
+					if kk, _, _ := kindOf(st.Field(idx).Type()); kk == KStruct {
+						return e, fmt.Errorf("%s:%d: immutable on aggregate field not supported", fi.Clause.File, fi.Clause.Line)
+					}
+					fi.LeafKey = canonType(st.Field(idx).Type())
+					e.immutables = append(e.immutables, fi)
+				}
+				e.fieldInvs[k] = fi
 			}
 		}
 	}
@@ -205,6 +217,17 @@ func (e *Engine) fieldInvOf(fa *ssa.FieldAddr) (*FieldInv, string) {
 	return e.fieldInvs[k], k
 }
 
+func (e *Engine) immutableOf(fa *ssa.FieldAddr) *FieldInv {
+	if len(e.immutables) == 0 {
+		return nil
+	}
+	pt, ok := types.Unalias(fa.X.Type()).Underlying().(*types.Pointer)
+	if !ok {
+		return nil
+	}
+	return e.fieldInvs[fmt.Sprintf("%s#%d#immutable", canonType(pt.Elem()), fa.Field)]
+}
+
 // synthFieldSites: every function of the module that stores to a field under
 // invariant is put under (an at least empty) contract, so that the store is
 // an obligation; the inventory of sites is kept for the evidence.
@@ -222,6 +245,10 @@ func (e *Engine) synthFieldSites() {
 				fa, ok := st.Addr.(*ssa.FieldAddr)
 				if !ok {
 					continue
+				}
+				if fi := e.immutableOf(fa); fi != nil {
+					hit = append(hit, fi)
+					e.fieldSites[fi.Type+"."+fi.Field+" (immutable)"] = append(e.fieldSites[fi.Type+"."+fi.Field+" (immutable)"], fmt.Sprintf("%s:%d", funcKey(f), e.prog.Fset.Position(st.Pos()).Line))
 				}
 				if fi, k := e.fieldInvOf(fa); fi != nil {
 					if funcPkg(f).Path() != fi.PkgPath {
